@@ -6,6 +6,16 @@ pub mod sinks;
 pub mod types;
 
 #[cfg(kani)]
-mod c01_rt;
+pub mod c01_rt;
 #[cfg(kani)]
-mod c02_eps;
+pub mod c02_eps;
+#[cfg(kani)]
+pub mod c15_tags;
+#[cfg(kani)]
+pub mod c07_pad;
+
+// Filled in (in the work copy only) by /verif/check when it replays a
+// counterexample: Kani's concrete-playback unit tests.
+#[cfg(kani)]
+#[cfg(test)]
+mod pb;
